@@ -122,7 +122,7 @@ theorem closed (s₀ : Node) : StepClosed (Inv s₀) where
   fsm := fun s f h => inv_congr h rfl rfl rfl rfl rfl
   changeConfigR := fun s c h => by
     refine inv_congr h ?_ ?_ ?_ ?_ ?_ <;> (unfold Node.changeConfigR; dsimp only; split <;> rfl)
-  setCommitIndexR := fun s i h => by
+  setCommitIndexR := fun s i h _ => by
     refine inv_congr h ?_ ?_ ?_ ?_ ?_ <;>
       (unfold Node.setCommitIndexR Node.afterConfigCommit Node.closeIfRemoved Node.stepDownIfNotVoter Node.commitConfig Node.doClose; dsimp only; repeat' split) <;> rfl
   popOrder := fun s h => inv_congr h rfl rfl rfl rfl rfl
@@ -152,7 +152,7 @@ theorem closed (s₀ : Node) : StepClosed (Inv s₀) where
     have h1 : Inv s₀ s1 := point_inv _ _ _ (inv_congr h rfl rfl rfl rfl rfl)
     have h2 : Inv s₀ s2 := inv_congr h1 rfl rfl rfl rfl rfl
     exact point_inv _ _ _ (inv_congr h2 rfl rfl rfl rfl rfl)
-  installCommit := fun s h => inv_congr h rfl rfl rfl rfl rfl
+  installCommit := fun s h _ => inv_congr h rfl rfl rfl rfl rfl
   snapPending := fun s v h => inv_congr h rfl rfl rfl rfl rfl
   snapResult := fun s v h => inv_congr h rfl rfl rfl rfl rfl
   bootstrapLast := fun s i t h => inv_congr h rfl rfl rfl rfl rfl
